@@ -5,7 +5,7 @@
    header variants) are decoded by the same Gallina functions on every run, and the legacy checksum is computed by
    the Gallina SHA3-256 (model/Keccak.v, validated on 16 test vectors by vm_compute). *)
 From Coq Require Import List NArith String.
-From Jamm Require Import Bytes Consts CLayout Meta Codec MetaFacts CodecFacts CfgFacts.
+From Jamm Require Import Bytes Consts CLayout Meta Keccak OldMeta Codec MetaFacts CodecFacts CfgFacts OldMetaFacts.
 Import ListNotations.
 Local Open Scope N_scope.
 
@@ -38,3 +38,37 @@ Theorem C15_wrong_pagesize_refused : forall P' m s2, m_psz m <> P' ->
   exists why, select_slots P' (SlotValid m) s2 = SelPanic why.
 Proof. exact wrong_pagesize_refused. Qed.
 Print Assumptions C15_wrong_pagesize_refused.
+
+(* ---- the legacy (SHA3-256 checksummed) header, for every header and every page size ---- *)
+Theorem C15_legacy_header_codec : forall P m, meta_wf m -> old_meta_end <= P ->
+  decode_old_meta (encode_old_meta_page P m) =
+    Some (mkMeta (m_page m) (m_magic m) (m_version m) (m_psz m) (m_root m) (m_next m) (m_np m) (m_fl m) (m_tx m) 0, old_hash m).
+Proof. exact decode_encode_old_meta. Qed.
+Print Assumptions C15_legacy_header_codec.
+
+Theorem C15_legacy_header_valid : forall ct P m, meta_wf m -> old_meta_end <= P ->
+  read_slot_old ct (encode_old_meta_page P m) = SlotValid (with_hash m).
+Proof. exact read_slot_old_encode. Qed.
+Print Assumptions C15_legacy_header_valid.
+
+(* a file both of whose headers are in the legacy format opens on the newer of the two, exactly as a current file
+   with the same two headers would (premise: neither legacy page happens to carry a valid current-format checksum;
+   legacy_page_invalid_iff says this is "first 8 digest bytes <> FNV checksum") *)
+Theorem C15_legacy_file_opens : forall ct P m0 m1, meta_wf m0 -> meta_wf m1 -> old_meta_end <= P ->
+  m_psz m0 = P -> m_psz m1 = P ->
+  read_slot ct (encode_old_meta_page P m0) = SlotInvalid -> read_slot ct (encode_old_meta_page P m1) = SlotInvalid ->
+  select_any ct P (encode_old_meta_page P m0) (encode_old_meta_page P m1) =
+    SelMeta (with_hash (if m_tx m1 <? m_tx m0 then m0 else m1)).
+Proof. exact legacy_file_opens_newest. Qed.
+Print Assumptions C15_legacy_file_opens.
+
+(* after the first commit by the current version one header is current, the other still legacy: opens on the current *)
+Theorem C15_mixed_file_opens : forall ct P m0 m1, meta_wf m0 -> meta_end <= P -> m_psz m0 = P ->
+  read_slot ct (encode_old_meta_page P m1) = SlotInvalid ->
+  select_any ct P (encode_meta_page P (with_hash m0)) (encode_old_meta_page P m1) = SelMeta (with_hash m0) /\
+  select_any ct P (encode_old_meta_page P m1) (encode_meta_page P (with_hash m0)) = SelMeta (with_hash m0).
+Proof. exact mixed_file_current_wins. Qed.
+Print Assumptions C15_mixed_file_opens.
+
+Theorem C15_digest_length : forall msg, List.length (sha3_256 msg) = 32%nat.
+Proof. exact sha3_256_length. Qed.
